@@ -203,6 +203,12 @@ func (r *renderer) value(v *Value) string {
 	case "int":
 		return strconv.FormatInt(v.I, 10)
 	case "double":
+		// plain or exponent notation (the latter only when it has a decimal point: see the
+		// known finding about "1e5")
+		if e := strconv.FormatFloat(v.D, 'e', -1, 64); strings.Contains(e, ".") && r.pick(3) == 0 {
+			r.used["double-exponent"]++
+			return e
+		}
 		return fmtDouble(v.D)
 	case "bool":
 		if v.B {
